@@ -179,11 +179,12 @@ def eos_negative_controls(ctx, events):
 
 # ----------------------------------------------------------------------------- QHA part
 QHA_INV = ["TypeOK", "InvIndexSafety", "InvCompletes", "InvFailedFitReported", "InvLength",
-           "InvPerTemperatureElectronic", "InvPhononUnit", "InvPressureSign", "InvRecovery", "InvBulkModulusObject",
+           "InvPerTemperatureElectronic", "InvPhononUnit", "InvPressureSign", "InvRecovery", "InvShiftInvariance", "InvOrderInvariance", "InvBulkModulusObject",
            "InvThermalExpansion", "InvHeatCapacity", "InvHeatCapacityPolyfit", "InvGruneisen", "InvFiles", "InvUnits"]
 QHA_IMPL = ["ImplExact", "ImplCompletes", "ImplFailedFitReported", "ImplFitStart", "ImplLength",
             "ImplPerTemperatureElectronic", "ImplPhononUnit", "ImplPressureSign", "ImplRecoverVolume",
-            "ImplRecoverGibbs", "ImplRecoverBulk", "ImplBulkModulusObject", "ImplThermalExpansion", "ImplHeatCapacity",
+            "ImplRecoverGibbs", "ImplRecoverBulk", "ImplShiftInvariance", "ImplOrderInvariance", "ImplBulkModulusObject",
+            "ImplThermalExpansion", "ImplHeatCapacity",
             "ImplHeatCapacityPolyfit", "ImplGruneisen", "ImplFiles"]
 QHA_CONF = ["ConformsStatus", "ConformsLen", "ConformsRows", "ConformsBulkModulus", "ConformsTables",
             "ConformsStencils", "ConformsFiles"]
@@ -453,6 +454,10 @@ def gen_cases(ctx):
             add(T, tm, shape, P, rng.choice(EOS_NAMES), rng, mode, perturbed=(rng.random() < 0.25))
     cases[0].wf = True
     gen_deep_cases(ctx, cases)
+    # order in which the volume points are listed: ascending, descending, a non-involutive shuffle
+    for i, c in enumerate(cases[1:], 1):
+        if c.family == "main" or c.family[:2] in ("F1", "F8", "F9"):
+            c.set_vorder(["asc", "desc", "shuffle", "asc"][(i + ctx.seed) % 4])
     return cases
 
 
@@ -495,7 +500,7 @@ def seqs(o):
 def case_detail(c, extra=None):
     d = dict(id=c.id, family=c.family, mode=c.mode, eos=c.eos, temperatures=c.T, t_max=c.tmax, shape=c.shape,
              pressure=None if c.P is None else str(c.P), volumes=c.volumes.tolist(),
-             electronic_dtype=c.eldtype, volume_dtype=c.voldtype, injected={"%s#%d" % k: v for k, v in c.inject.items()},
+             volume_order=c.vorder, electronic_dtype=c.eldtype, volume_dtype=c.voldtype, injected={"%s#%d" % k: v for k, v in c.inject.items()},
              fit_outcomes=dict(bulkmodulus=c.bmplan, qha=c.fitplan),
              ptab=[{k: str(v) for k, v in p.items()} for p in c.ptab],
              qtab=[{k: str(v) for k, v in p.items()} for p in c.qtab],
@@ -714,7 +719,7 @@ def qha_part(ctx, forms, EV, NA):
                 cid = ((st.get("ev") or {}).get("inp") or {}).get("id")
                 ctx.violation("qha:" + str(r2.violated), "C20: %s violated" % r2.violated,
                               dict(invariant=r2.violated, case=case_detail(by_id[cid]) if cid in by_id else None))
-            lead = ["ImplShiftInvariance", "ImplRecoverVolume", "ImplFailedFitReported", "ImplCompletes", "ImplFitStart", "ImplFiles"]
+            lead = ["ImplOrderInvariance", "ImplShiftInvariance", "ImplRecoverVolume", "ImplFailedFitReported", "ImplCompletes", "ImplFitStart", "ImplFiles"]
             plan = []
             for (n, fam), clauses in sorted(groups.items()):
                 first = n if n != "*" else ([c for c in lead if c in clauses] + sorted(clauses))[0]
@@ -1096,6 +1101,7 @@ def run(ctx):
     for c in cases:
         for key, on in (("family:" + c.family, c.family != "main"), ("writes files", c.wf),
                         ("heat capacity below cutoff at one temperature", any(r[0] <= 0 for r in c.cvtab)),
+                        ("volume order:" + c.vorder, True),
                         ("mode:" + c.mode, True), ("eos:" + c.eos, True), ("shape:" + c.shape, True),
                         ("pressure acts", c.P is not None and c.P != 0), ("pressure none", c.P is None),
                         ("pressure acts, eos:" + c.eos, c.P is not None and c.P != 0),
